@@ -11,11 +11,24 @@ RULE = ('random circuits through the public API (Verilog-reader and bench-reader
         'one or two outputs); per circuit: exact correspondence of the Lean SimOps model with the real ops/levels/memory map for '
         '{strip_forks}x{c_reuse}; oracle = spec-level gate-by-gate evaluator (Lean, uses formula not LUTs) vs real LogicSim(m=2) '
         'for several batch sizes (not multiples of 8), both c_prop code paths, k=1..4 cycles. distinct = circuit dumps x option tuple; '
-        'non-trivial = at least 2 ops and at least one captured 0 and one captured 1')
+        'non-trivial = at least 2 ops and at least one captured 0 and one captured 1; cycle_tie: sequential circuits (0-4 state elements, '
+        'flip-flop without outputs, open data pin, toggle flip-flop) x m in {2,4,8} x {strip_forks} x {c_reuse} x both code paths x k=0..5, random '
+        's[0]/s[1] in all planes: real pippi/poppo/ppio_s_locs, pippi/poppo_c_locs and s[0], s[1] after LogicSim.cycle(k) = Lean model cycleKA '
+        '(Model/Cycle.lean), certificates zeroCapB/capDriversB/forksOKB on the real tables')
 
 
 def theorems():
     return common.theorems_of('KyupyVerif/Props/C01.lean', 'KV.C01')
+
+
+def _retry_if_driver_killed(fn, case):
+    """a driver process ended by an external signal (negative return code: machine shared with other runs) says nothing about the
+    case: evaluate it once more with a fresh driver; every other exception propagates"""
+    try:
+        return fn(case)
+    except RuntimeError as ex:
+        if 'driver died (rc=-' not in str(ex): raise
+        return fn(case)
 
 
 def build_case(rng, idx):
@@ -128,7 +141,7 @@ def corr_and_oracle(ck, n_circuits, thorough=False):
                 ck.broken_tie('certificate wellOrderedB on the real ops', ans, inp={'net': dump, 'strip': strip})
         case = make_case(rng, c, thorough)
         try:
-            ok, obs, exp = eval_case(case)
+            ok, obs, exp = _retry_if_driver_killed(eval_case, case)
         except Exception as ex:
             ok, obs, exp = False, {'raised': f'{type(ex).__name__}: {ex}'[:300]}, None
         nontriv = d['lines'] >= 4
@@ -142,10 +155,133 @@ def corr_and_oracle(ck, n_circuits, thorough=False):
             ck.violation(cls, 'LogicSim(m=2) result differs from gate-by-gate evaluation of the netlist', case, obs, exp)
 
 
+# ---------------------------------------------------------------------------------------------------------------------
+# sequential part: model of s_to_c / c_to_s / s_ppo_to_ppi / cycle(k) (lean/KyupyVerif/Model/Cycle.lean) vs the real code
+
+MDIM = {2: 1, 4: 2, 8: 3}
+
+
+def seq_circuit(rng, n_gates=None):
+    """random circuit with state elements, plus the corner cases of the state handling: a flip-flop without any output,
+    a flip-flop / latch whose data pin is open (captures the constant-0 slot), a toggle flip-flop"""
+    from kyupy.circuit import Node, Line
+    c = circ.rand_circuit(rng, n_gates=n_gates if n_gates is not None else rng.randint(1, 20),
+                          n_ff=rng.choice([0, 1, 1, 2, 3, 4]))
+    forks = [n for n in c.nodes if n.kind == '__fork__']
+    if rng.random() < 0.25 and forks:            # state element nobody reads: no (P)PI slot (c_locs = -1), skipped by s_to_c
+        ff = Node(c, 'ffx', rng.choice(['DFF', 'LATCH']))
+        Line(c, rng.choice(forks), (ff, 0))
+    if rng.random() < 0.25:                      # open data pin, output observed at a port
+        ff = Node(c, 'ffz', rng.choice(['DFF', 'dff', 'LATCH']))
+        if rng.random() < 0.5 and forks: Line(c, rng.choice(forks), (ff, 1))    # ins = [None, clk]
+        q = Node(c, 'qz'); Line(c, (ff, 0), q)
+        if rng.random() < 0.5:
+            o = Node(c, 'oz', 'output'); Line(c, q, o); c.io_nodes.append(o)
+        else:
+            c.io_nodes.append(q)
+    if rng.random() < 0.3:                       # toggle flip-flop (period 2), observed at a port
+        ff = Node(c, 'fft', 'DFF'); q = Node(c, 'qt'); Line(c, (ff, 0), q)
+        g = Node(c, 'gt', 'INV1'); Line(c, q, g); gf = Node(c, 'gtf'); Line(c, g, gf); Line(c, gf, (ff, 0))
+        o = Node(c, 'ot', 'output'); Line(c, gf, o); c.io_nodes.append(o)
+    return c
+
+
+def codes_of(arr, sims, mdim):
+    """[s_len, 3, nbytes] bit-parallel -> [s_len, sims] codes restricted to the first mdim planes"""
+    bits = np.unpackbits(arr, axis=-1, bitorder='little')[..., :sims]
+    out = np.zeros((arr.shape[0], sims), dtype=np.int64)
+    for pl in range(mdim): out += bits[:, pl, :].astype(np.int64) << pl
+    return out
+
+
+def fmt_rows(codes):
+    return '~' if codes.shape[0] == 0 else ','.join(''.join(str(int(v)) for v in row) for row in codes)
+
+
+def make_cycle_case(rng, c):
+    import pickle, base64
+    s_len = len(c.s_nodes)
+    sims = rng.choice([1, 2, 3, 5, 8, 9, 13])
+    rs = np.random.RandomState(rng.randint(0, 2**31 - 1))
+    m = rng.choice([2, 2, 4, 8])
+    return {'circuit': base64.b64encode(pickle.dumps(c)).decode(), 'm': m,
+            's0': rs.randint(0, 8, size=(s_len, sims)).tolist(), 's1': rs.randint(0, 8, size=(s_len, sims)).tolist(),
+            'strip': rng.random() < 0.4, 'reuse': rng.random() < 0.5, 'path': rng.choice(['plain', 'plain', 'cb']),
+            'k': rng.choice([0, 1, 1, 2, 3, 4, 5])}
+
+
+def eval_cycle_case(case):
+    """model cycleK (driver command `cycle`) vs the real LogicSim.cycle(k): index tables, s[0], s[1], all lanes"""
+    import pickle, base64
+    from kyupy import logic
+    from kyupy.logic_sim import LogicSim
+    c = pickle.loads(base64.b64decode(case['circuit']))
+    m, k = case['m'], case['k']; mdim = MDIM[m]
+    s_len = len(c.s_nodes)
+    s0 = np.array(case['s0'], dtype=np.uint8).reshape(s_len, -1); s1 = np.array(case['s1'], dtype=np.uint8).reshape(s_len, -1)
+    sims = s0.shape[1]
+    with common.quiet():
+        ls = LogicSim(c, sims, m=m, c_reuse=case['reuse'], strip_forks=case['strip'])
+        ls.s[0] = logic.mv_to_bp(s0); ls.s[1] = logic.mv_to_bp(s1)
+        in0, in1 = codes_of(ls.s[0], sims, mdim), codes_of(ls.s[1], sims, mdim)
+        if case['path'] == 'cb': ls.cycle(k, lambda *a: None)
+        else: ls.cycle(k)
+    order = ','.join(str(n.index) for n in c.topological_order()) or '~'
+    ans, cert, _, fk = common.run_driver([f"cycle {m} {int(case['strip'])} {k} {order} {fmt_rows(in0)} {fmt_rows(in1)} {circ.dump_net(c)}",
+                                          f"cyclecert {order} {','.join(str(int(x)) for x in ls.c_locs)} {circ.dump_net(c)}",
+                                          f"net {circ.dump_net(c)}", f"forkcert {order}"])
+    if not fk.startswith('forks=true'): return False, {'forkcert': fk[:60]}, {'forkcert': 'forks=true'}   # hypothesis of cycle_strip_irrelevant
+    # side condition of C01.cycle_on_memory on the REAL c_locs: `zero` (state element with open data pin captures the row of the
+    # constant slot); of C01.cycle_strip_irrelevant: `cap` (the real order contains the driver of every captured line) — both must
+    # hold on every circuit
+    case['_mem_thm'] = cert
+    if 'zero=1' not in cert or 'cap=1' not in cert: return False, {'cyclecert': cert}, {'cyclecert': 'zero=1 cap=1'}
+    parts = ans.split(';')
+    if len(parts) != 5: return False, {'driver': ans[:200]}, None
+    ints = lambda t: [int(x) for x in t.split(',') if x != '']
+    real_tabs = {'pippi_s_locs': [int(x) for x in ls.pippi_s_locs], 'poppo_s_locs': [int(x) for x in ls.poppo_s_locs],
+                 'ppio_s_locs': [int(x) for x in ls.ppio_s_locs]}
+    model_tabs = {'pippi_s_locs': ints(parts[0]), 'poppo_s_locs': ints(parts[1]), 'ppio_s_locs': ints(parts[2])}
+    if real_tabs != model_tabs: return False, real_tabs, model_tabs
+    # memory-level tables are the c_locs entries of the (P)PI / (P)PO slots of exactly these positions
+    if [int(x) for x in ls.pippi_c_locs] != [int(ls.c_locs[ls.ppi_offset + p]) for p in model_tabs['pippi_s_locs']] or \
+       [int(x) for x in ls.poppo_c_locs] != [int(ls.c_locs[ls.ppo_offset + p]) for p in model_tabs['poppo_s_locs']]:
+        return False, {'pippi_c_locs': [int(x) for x in ls.pippi_c_locs], 'poppo_c_locs': [int(x) for x in ls.poppo_c_locs]}, 'c_locs[offset + s_locs]'
+    for name, arr, got in (('s0', ls.s[0], parts[3]), ('s1', ls.s[1], parts[4])):
+        real = fmt_rows(codes_of(arr, sims, mdim))
+        if real != got:
+            rr, mm = real.split(','), got.split(',')
+            j = next((i for i, (a, b) in enumerate(zip(rr, mm)) if a != b), -1)
+            return False, {'row': name, 's_node': j, 'name': c.s_nodes[j].name if 0 <= j < s_len else None, 'real': rr[j] if j >= 0 else real[:80]}, \
+                {'model': mm[j] if j >= 0 else got[:80]}
+    return True, None, None
+
+
+def cycle_tie(ck, n_circuits, thorough=False):
+    rng = ck.rng
+    for it in range(n_circuits):
+        c = seq_circuit(rng, n_gates=rng.randint(1, 20 if not thorough else 60))
+        d = circ.describe(c)
+        for rep in range(2):
+            case = make_cycle_case(rng, c)
+            try:
+                ok, obs, exp = _retry_if_driver_killed(eval_cycle_case, case)
+            except Exception as ex:
+                ok, obs, exp = False, {'raised': f'{type(ex).__name__}: {ex}'[:300]}, None
+            ck.case(key=('cycle', circ.dump_net(c), case['m'], case['strip'], case['reuse'], case['path'], case['k']),
+                    nontrivial=d['ff'] >= 1 and case['k'] >= 1,
+                    tag=['tie:cycle', f"tie-m:{case['m']}", f"tie-k:{min(case['k'], 3)}", f"tie-ff:{min(d['ff'], 3)}",
+                         f"tie-memthm:{case.pop('_mem_thm', '?')}"])
+            if not ok:
+                ck.broken_tie('cycle model correspondence (Model/Cycle.lean vs LogicSim.cycle)', f'real {obs} != model {exp}'[:400],
+                              inp={'cycle_case': case})
+
+
 def run(ck):
     ck.prove([extract_ops.generate], TARGETS, theorems())
     n = 60 if ck.tier == 'quick' else 800
     corr_and_oracle(ck, n, ck.tier == 'thorough')
+    cycle_tie(ck, 40 if ck.tier == 'quick' else 500, ck.tier == 'thorough')
     if ck.broken and not ck.violations:
         corr_and_oracle(ck, n * 5, ck.tier == 'thorough')
     ck.assumptions += ['state elements and ports have a connected data pin (an unconnected one raises in SimOps, finding D9)',
@@ -154,6 +290,7 @@ def run(ck):
 
 
 def replay(rep):
-    ok, obs, exp = eval_case(rep['input'])
+    inp = rep['input']
+    ok, obs, exp = eval_cycle_case(inp['cycle_case']) if 'cycle_case' in inp else eval_case(inp)
     print(json.dumps({'ok': ok, 'observed': obs, 'expected': exp}, default=str))
     return 0 if ok else 1
